@@ -1129,7 +1129,7 @@ func inAtomicPointer(e *Exec, s *State, f *Frame, fn *ssa.Function, args []Value
 	// Pointer[T] struct { _ [0]*T; _ noCopy; v unsafe.Pointer }
 	t := recvElem(fn)
 	p := sub(e.ptr(args[0]), fieldPathByName(t, "v"))
-	switch fn.Name() {
+	switch baseName(fn.Name()) {
 	case "Load":
 		return e.ret(f, result, s.load(p))
 	case "Store":
